@@ -938,7 +938,7 @@ func printCallgrind(w io.Writer, rpt *Report) error {
 	nodeNames := getDisambiguatedNames(g)
 
 	fmt.Fprintln(w, "positions: instr line")
-	fmt.Fprintln(w, "events:", o.SampleType+"("+o.OutputUnit+")")
+	fmt.Fprintln(w, "events:", callgrindLine(o.SampleType+"("+o.OutputUnit+")"))
 
 	objfiles := make(map[string]int)
 	files := make(map[string]int)
@@ -1022,11 +1022,19 @@ func getDisambiguatedNames(g *graph.Graph) map[*graph.Node]string {
 	return nodeName
 }
 
+// callgrindLine replaces line breaks in text that has to fit on one line
+// of the callgrind output.
+func callgrindLine(s string) string {
+	return strings.NewReplacer("\r\n", " ", "\n", " ", "\r", " ").Replace(s)
+}
+
 // callgrindName implements the callgrind naming compression scheme.
 // For names not previously seen returns "(N) name", where N is a
 // unique index. For names previously seen returns "(N)" where N is
 // the index returned the first time.
 func callgrindName(names map[string]int, name string) string {
+	// The format is line based: a name cannot span lines.
+	name = callgrindLine(name)
 	if name == "" {
 		return ""
 	}
